@@ -91,12 +91,12 @@ theorem prepend_place_same {X : Forest} {p : Nat} {vp : Value} {lx : List HTree}
   have hpt : p ∉ handles t := by
     intro hin
     apply hpL
-    rw [handlesList_append, handlesList_cons]
+    rw [fs_handlesList_append, handlesList_cons]
     exact List.mem_append_right _ (List.mem_append_left _ hin)
   have sY : SiteAt (X.editAt (some p) (dropTop t.handle)) p vp (lx ++ rx) := by
     have := sX.edit (dropTop t.handle) (by
       rw [hdrop]
-      simp only [handlesList_append, handlesList_cons]
+      simp only [fs_handlesList_append, handlesList_cons]
       exact (List.Sublist.refl _).append (List.sublist_append_right _ _))
     rw [hdrop] at this
     exact this
@@ -225,7 +225,7 @@ theorem prepend_same_merged {f : Forest} {p : Nat} {vp : Value} {l' : List HTree
   let a' := a.setValue (.text (x ++ y))
   have sX : SiteAt (f.editAt (some p) (fun _ => l' ++ a' :: t :: r')) p vp ((l' ++ [a']) ++ t :: r') := by
     have := so.edit (fun _ => l' ++ a' :: t :: r') (by
-      simp only [a', handlesList_append, handlesList_cons, setValue_handles, handlesList_nil, List.append_nil,
+      simp only [a', fs_handlesList_append, handlesList_cons, setValue_handles, handlesList_nil, List.append_nil,
         List.append_assoc]
       refine (List.Sublist.refl _).append ((List.Sublist.refl _).append ((List.Sublist.refl _).append ?_))
       exact List.sublist_append_right _ _)
